@@ -98,6 +98,11 @@ fn main() {
                 1
             }
         }
+        Some("hist") => {
+            let p = profiles.iter().find(|p| p.id == args[2]).expect("profile");
+            let idx: Vec<u64> = args[5].split(',').filter_map(|x| x.parse().ok()).collect();
+            driver::hist_main(p, tier_of(&args[3]), args[4].parse().unwrap(), &idx)
+        }
         Some("digest") => {
             let p = profiles.iter().find(|p| p.id == args[2]).expect("profile");
             driver::digest_main(p, tier_of(&args[3]), args[4].parse().unwrap(), args[5].parse().unwrap(), args[6].parse().unwrap())
